@@ -71,7 +71,8 @@ def gen_tree(r, troot, tmpfs_dir):
     # symlinks
     for _ in range(r.choice([0, 0, 1, 2, 4])):
         d = r.choice(dirs)
-        kind = r.choice(["file-rel", "file-abs", "dir-rel", "dir-abs", "dangling", "cycle", "tmpfs-dir", "tmpfs-file"])
+        kind = r.choice(["file-rel", "file-abs", "dir-rel", "dir-abs", "dangling", "cycle", "tmpfs-dir", "tmpfs-file",
+                         "dir-abs-dotdot", "file-abs-dotdot"])
         # some links carry a name that an ignore rule mentions (a `name/` rule is for directories only, and a link is not one)
         lp = os.path.join(d, "ln%d" % r.randrange(1000) if r.random() < 0.7 else r.choice(["sub", "b", "UP", "data"]))
         if os.path.lexists(lp):
@@ -85,6 +86,11 @@ def gen_tree(r, troot, tmpfs_dir):
                 os.symlink(os.path.relpath(r.choice(dirs), d), lp)
             elif kind == "dir-abs":
                 os.symlink(r.choice(dirs), lp)
+            elif kind in ("dir-abs-dotdot", "file-abs-dotdot") and (files if kind[0] == "f" else dirs):
+                # an absolute target whose text is not canonical: /x/sub/../sub/name
+                t = r.choice(files if kind[0] == "f" else dirs)
+                par = os.path.dirname(t)
+                os.symlink(os.path.join(par, "..", os.path.basename(par), os.path.basename(t)), lp)
             elif kind == "dangling":
                 os.symlink("nowhere/at/all", lp)
             elif kind == "cycle":
